@@ -267,7 +267,7 @@ def _title(rng):
 
 def _url(rng):
     scheme = rng.choice(["http", "https", "ftp", "chrome-extension", "about+x"])
-    host = rng.choice(["", "www.", "www.", "WWW."]) + rng.choice(["example.com", "a.b.c", "localhost", "www.example.org", "x"]) \
+    host = rng.choice(["", "www.", "www.", "WWW."]) + rng.choice(["example.com", "a.b.c", "localhost", "www.example.org", "x", "www", "www.", "wwwx.com", "127.0.0.1"]) \
         + rng.choice(["", "", ":8080"])
     path = rng.choice(["", "/", "/a/b", "/a;p=1/b", "/a/b;p=1;q", "/ä/ö", "/a%20b", "/index.html;v=2"])
     query = rng.choice(["", "", "?q=1", "?a=1&b=2", "?", "?x;y"])
